@@ -1465,6 +1465,7 @@ fn judge_replay_file(text: &str, farm: &mut Option<Farm>) -> Result<Option<(Stri
         Some("farm") => {
             let (project, wants, metas) = project_from_json(&v).ok_or("malformed farm replay file")?;
             let f = farm.get_or_insert_with(|| Farm::new("c17"));
+            f.run_timeout = std::time::Duration::from_secs(120);
             let out = f.run_one(&project, Mode::CheckBuildRun);
             let mut st = Stats::default();
             match judge(&wants, &metas, &out, &mut st) {
@@ -1522,6 +1523,24 @@ fn main() {
             }
             Ok(None) => out.known_replayed(&k.key, false),
             Err(e) => out.inconclusive(&format!("known finding {}: {e}", k.key)),
+        }
+    }
+    // ---- regression corpus: canonical inputs of fixed findings must hold
+    if let Ok(rd) = std::fs::read_dir(vcore::verif_root().join("known/C17/fixed")) {
+        let mut files: Vec<_> = rd.flatten().map(|e| e.path()).filter(|p| p.extension().is_some_and(|e| e == "json")).collect();
+        files.sort();
+        for fpath in files {
+            let text = std::fs::read_to_string(&fpath).unwrap_or_default();
+            let name = fpath.file_stem().map(|s| s.to_string_lossy().to_string()).unwrap_or_default();
+            ev.case(Some(util::hash_str(&text)));
+            ev.class("regression-input");
+            match judge_replay_file(&text, &mut farm) {
+                Ok(None) => {}
+                Ok(Some((key, detail))) => {
+                    out.violation(&mut ev, &format!("regression:{name}"), "json", &text, &format!("a fixed finding is back ({key})\n{detail}"));
+                }
+                Err(e) => out.inconclusive(&format!("regression input {}: {e}", fpath.display())),
+            }
         }
     }
     let allow = Allow { alias: !out.is_known(K_ALIAS), generic: !out.is_known(K_GENERIC), strlit: !out.is_known(K_STRLIT) };
